@@ -911,7 +911,10 @@ class C12(Property):
                 continue
             c = copy.deepcopy(case)
             del c["renders"][i]
+            # a form without one of its controls no longer posts the whole element: keep the per-control clauses only
+            c["form_mode"] = False
             for r in c["renders"]:
+                r["form"] = False
                 for key in ("pair", "within"):
                     if r.get(key) is not None and r[key] > i:
                         r[key] -= 1
@@ -926,6 +929,12 @@ class C12(Property):
             for r in c["renders"]:
                 r["form"] = False
             yield c
+        for i, r in enumerate(rs):
+            if r.get("handle") is not None or r.get("how", "call") != "call":
+                c = copy.deepcopy(case)
+                c["renders"][i].pop("handle", None)
+                c["renders"][i].pop("how", None)
+                yield c
         if case["markup"] != "xhtml":
             c = copy.deepcopy(case)
             c["markup"] = "xhtml"
